@@ -21,9 +21,9 @@ def run(ctx):
     t1 = os.path.join(ctx.scratch, "pq-u2.ndjson")
     if ctx.replay:
         return replay(ctx)
-    ctx.run_driver(["pq", "-scn", scn_file, "-out", t1])
+    ctx.run_driver(["pq", "-scn", scn_file, "-typed", "-out", t1])
     s1 = json.load(open(t1 + ".summary.json"))
-    ctx.validate("", "Trace_PacketQueue", "Trace_PacketQueue.cfg", t1, label="TLC-generated behaviours")
+    ctx.validate("", "Trace_PacketQueue", "Trace_PacketQueue.cfg", t1, label="TLC-generated behaviours, reads through Bytes / Read and again through the typed readers")
     # U3: random operation sequences at packet sizes 9..600
     t2 = os.path.join(ctx.scratch, "pq-rand.ndjson")
     ctx.run_driver(["pq", "-count", 6000 if thorough else 700, "-seed", ctx.seed, "-out", t2])
